@@ -22,13 +22,10 @@ for logs in (False, True):
         add_query(HARNESSES, QUERIES, logs, q, b, k, 0, 0, 'h_shutdown', 'shutdown_call', tier)
     add_query(HARNESSES, QUERIES, logs, 4, 2, 3, 0, 6, 'h_shutdown', 'shutdown_two_callers', 'quick')
     add_query(HARNESSES, QUERIES, logs, 4, 2, 3, 2, 0, 'h_shutdown', 'shutdown_with_waiting_flush', 'quick' if not logs else 'thorough')
-def hp(t, i, w=1):
-    return dict(src='c02_periodic.cc', defines=['TICKETS=%d' % t, 'INTERFERE=%d' % i, 'WMODE=%d' % w, 'OTEL_INTERNAL_LOG_LEVEL=0'], models=BATCH_MODELS + ['future_once.c', SP_LEAK_MODEL], overrides=[SP_RELEASE], roots=['verif_worker_step', 'verif_thread_run'],
-                native_mode='generated_c', ir2c_flags=['--new-array-max', '136'], model_defines=['VERIF_NEW_ARRAY_MAX=136', 'VERIF_THREAD_RUN_AT_START', 'pthread_once=verif_pthread_once', '__once_proxy=verif_once_proxy', '_ZSt11__once_call=verif_once_call', '_ZSt15__once_callable=verif_once_callable'])
-for (t, i, tier) in ((0, 0, 'thorough'), (2, 0, 'quick'), (0, 1, 'quick'), (2, 1, 'thorough')):
+for (t, i, tier) in ((0, 0, 'thorough'), (2, 0, 'quick'), (0, 1, 'quick'), (2, 1, 'thorough'), (0, 2, 'quick')):
     HARNESSES['c02_per_t%di%d' % (t, i)] = hp(t, i)
     QUERIES.append(dict(name='periodic_collect_cycle_t%di%d' % (t, i), harness='c02_per_t%di%d' % (t, i), entry='h_collect_cycle', unwind=8, unwindset=BATCH_US, rec_unwind=3, timeout=600, tier=tier,
-                        shape='PeriodicExportingMetricReader::CollectAndExportOnce: %s; %s' % (('no flush requested', '', 'a ForceFlush waiting when the cycle starts')[t], ('no interference', 'a measurement is recorded and a ForceFlush ticket taken while the cycle is inside Export, then a second cycle')[i])))
+                        shape='PeriodicExportingMetricReader::CollectAndExportOnce: %s; %s' % (('no flush requested', '', 'a ForceFlush waiting when the cycle starts')[t], ('no interference', 'a measurement is recorded and a ForceFlush ticket taken while the cycle is inside Export, then a second cycle', 'another thread may call Shutdown while the cycle is inside Export')[i])))
 for w in (1, 0):
     HARNESSES['c02_per_w%d' % w] = hp(0, 0, w)
     QUERIES.append(dict(name='periodic_force_flush_w%d' % w, harness='c02_per_w%d' % w, entry='h_reader_force_flush', unwind=8, unwindset=BATCH_US, rec_unwind=3, timeout=600, tier='quick' if w else 'thorough',
